@@ -972,7 +972,10 @@ impl CodegenContext {
             } => {
                 if let Some(loop_count) = self.evaluate_expression_as_i64(expr, true)? {
                     for index in 0..loop_count {
-                        self.with_scope(loop_scope, Some(block), |s| {
+                        // Every iteration has its own scope, so the labels and blocks in the loop's body
+                        // do not collide with (or silently reuse the addresses of) the previous iteration's
+                        let iteration_scope = Identifier::new(format!("{}_{}", loop_scope, index));
+                        self.with_scope(&iteration_scope, Some(block), |s| {
                             s.add_symbol(
                                 "index",
                                 s.symbol(expr.span, index, SymbolType::Constant),
